@@ -928,6 +928,16 @@ def summarize(table: Table, **kwargs: ColExpr) -> Pipeable:
     if len(kwargs) == 0 and len(partition_by) == 0:
         raise ValueError("summarize without preceding group_by needs at least one column to summarize")
 
+    hidden_group_cols = [
+        table._cache.cols[uid].name for uid in table._cache.partition_by if uid not in table._cache.uuid_to_name
+    ]
+    if hidden_group_cols:
+        raise ValueError(
+            f"cannot summarize table `{table._ast.short_name()}`: the grouping column(s) "
+            f"{', '.join(f'`{name}`' for name in hidden_group_cols)} have been deselected or overwritten\n"
+            "hint: The grouping columns are part of the result of `summarize`, so they must still be selected."
+        )
+
     def check_summarize_col_expr(expr: ColExpr, agg_fn_above: bool):
         if isinstance(expr, Col) and expr._uuid not in partition_by and not agg_fn_above:
             raise FunctionTypeError(
